@@ -248,7 +248,7 @@ PROPS = {
     "C16": {
         "id": "C16",
         "title": "Sorting, order statistics and rank correlation match their definitions",
-        "rules": ["D1", "N3", "R2", "N5", "N6"],
+        "rules": ["D1", "N3", "R2", "N5", "N6", "M1"],
         "clause": "each correlation kernel's result (Pearson, Spearman, Kendall, per return statement of corr) may-depends on the "
                   "contents of both samples - necessary for symmetry and for being the named coefficient at all",
         "not_decided": "correctness of sort/median/medfilt, the numerical value of the coefficients, ties",
